@@ -157,8 +157,32 @@ class MetadataManager:
             self.lock_provider.acquire()
 
             try:
-                # PHASE 1: Validation (inside lock to prevent races)
-                current = self.refresh()
+                # PHASE 1: Validation (inside lock to prevent races).
+                # On CAS backends the pointer is read ONCE, together with its
+                # ETag, and validation runs against the very version that read
+                # names: the conditional PUT at the commit point then succeeds
+                # only if the version we validated is still the current one.
+                # (Taking the ETag in a second read AFTER validation would let a
+                # commit that lands between the two reads be overwritten.)
+                hint_etag: Optional[str] = None
+                filesystem_version: Optional[int] = None
+                previous_metadata_file: Optional[str] = None
+                current: Optional[TableMetadata] = None
+                if self.storage.supports_cas:
+                    try:
+                        hint_bytes, hint_etag = self.storage.read_file_with_etag(self.HINT_PATH)
+                        parsed = self._parse_hint_content(hint_bytes)
+                        if parsed is not None and self.storage.exists(
+                            f"{self.metadata_path}/{parsed[1]}"
+                        ):
+                            filesystem_version, previous_metadata_file = parsed
+                            current = self._read_metadata_file(
+                                f"{self.metadata_path}/{previous_metadata_file}"
+                            )
+                    except FileNotFoundError:
+                        hint_etag = None
+                if current is None:
+                    current = self.refresh()
 
                 # Check UUID consistency
                 if current and current.table_uuid != base_metadata.table_uuid:
@@ -191,19 +215,8 @@ class MetadataManager:
                     now_ms = max(now_ms, current.last_updated_ms + 1)
                 new_metadata.last_updated_ms = now_ms
 
-                # Read current version (and, on CAS backends, the hint's ETag so
-                # the commit point below can be a true compare-and-swap).
-                hint_etag: Optional[str] = None
-                filesystem_version: Optional[int] = None
-                previous_metadata_file: Optional[str] = None
-                if self.storage.supports_cas:
-                    try:
-                        hint_bytes, hint_etag = self.storage.read_file_with_etag(self.HINT_PATH)
-                        parsed = self._parse_hint_content(hint_bytes)
-                        if parsed is not None:
-                            filesystem_version, previous_metadata_file = parsed
-                    except FileNotFoundError:
-                        hint_etag = None
+                # Current version number (CAS backends learned it from the
+                # validation read above).
                 if filesystem_version is None:
                     info = self._current_version_info()
                     if info is not None:
